@@ -514,15 +514,17 @@ class JUnitReporter(Reporter):
                    (step_text, step.location)
             message = _text(step.exception).strip()
             xml_element.set(u'type', step.exception.__class__.__name__)
-            xml_element.set(u'message', message)
+            xml_element.set(u'message', _escape_invalid_xml_chars(message))
             text += _text(step.error_message)
         else:
             # -- MAYBE: Hook failure before any step is executed.
             failure_type = "UnknownError"
             if scenario.exception:
                 failure_type = scenario.exception.__class__.__name__
+            # -- NOTE: error_message is missing for a cleanup-error (only).
+            message = _text(scenario.error_message or u"").strip()
             xml_element.set(u'type', failure_type)
-            xml_element.set(u'message', scenario.error_message.strip() or "")
+            xml_element.set(u'message', _escape_invalid_xml_chars(message))
             traceback_lines = traceback.format_tb(scenario.exc_traceback)
             traceback_lines.insert(0, u"Traceback:\n")
             text = _text(u"".join(traceback_lines))
